@@ -9,7 +9,7 @@ sched.cov_register(__name__.split('.')[-1])      # dev-only: VERIF_COVERAGE=1
 ID = 'C08'
 COQ_MODEL = 'model.TsProps'
 COQ_CORR = 'corr_C08'
-N_QUICK = 1700
+N_QUICK = 1200
 N_THOROUGH = 5000
 THOROUGH_EXHAUSTIVE = True
 VM_CASES = 30
@@ -152,6 +152,14 @@ def corpus():
         _arr([_call('tA', [['ret', 'gen_raises_exc']]), _call('tC', [['ret', 'bad_charset']]), _call('tE', [['ret', 'none']])],
              0, [[600, 1]], cfg=['debug']),
         _arr([_call('tA', [['ret', 'bad_charset']]), _call('tC', [['ret', 'gen_empty']])], 0, [[600, 1]], cfg=['nocatch']),
+        _arr([_call('tA', [['ret', 'raise_mem']]), _call('tC', [['ret', 'gen_raises_mem']]),
+              _call('tE', [['ret', 'bad_charset']], method='HEAD')], 0, [[500, 1], [500, 2]]),
+        _arr([_call('tA', [['ret', 'file']]), _call('tC', [['form_see'], ['see']], method='POST', form='f=tCf', hook_input=True),
+              _call('tE', [['req_set', 'QUERY_STRING', 'q=tEq'], ['req_set', 'QUERY_STRING', 'x=1'], ['see']], readonly=True)],
+             0, [[400, 1], [400, 2]]),
+        # answers without a body whose iterable has to be closed
+        _arr([_call('tA', [['see'], ['gen', 2]], method='HEAD'), _call('tC', [['status', 204], ['ret', 'file']]),
+              _call('tE', [['status', 304], ['gen', 1]])], 0, [[500, 1], [500, 2]]),
         _arr([_call('tA', [['ret', 'loop418']]), _call('tC', [['bad_status', 'nospace']]), _call('tE', [['ret', 'resp_raise']])],
              1, [[200, 0]]),
         _arr([_call('tA', [], route='g405', method='POST'), _call('tC', [], route='nope404'),
@@ -234,7 +242,8 @@ def _gen_script(rng, tok, has_form=False):
         elif r < 0.40:
             script.append(['hdr', rng.choice(['X-A', 'X-B', 'X-C']), tok + 'h%d' % rng.randrange(3)])
         elif r < 0.48:
-            script.append(['status', rng.choice([201, 202, 404, 418, 204, 304, 797])])
+            code = rng.choice([201, 202, 404, 418, 204, 304, 797])
+            script.append(['status', code if rng.random() < 0.7 else '%d %s phrase' % (code, tok)])
         elif r < 0.56:
             script.append(['cookie', rng.choice(['k', 'm']), tok + 'k'])
         elif r < 0.64:
@@ -290,6 +299,10 @@ def _gen_arr(rng):
             kw['accept'] = 'application/json'
         if rng.random() < 0.1:
             kw['file_wrapper'] = True
+        if rng.random() < 0.15 and 'route' not in kw:
+            kw['readonly'] = True
+        elif kw.get('form') and not kw.get('chunked_ok') and rng.random() < 0.3:
+            kw['hook_input'] = True            # a before_request hook replaces wsgi.input / CONTENT_LENGTH of this request
         calls.append(_call(tok, _gen_script(rng, tok, 'form' in kw), **kw))
     switches = [[rng.randrange(1, 1000), rng.randrange(n)] for _ in range(rng.randrange(1, 5))]
     return _arr(calls, rng.randrange(n), switches, cfg=cfg)
@@ -340,50 +353,11 @@ def _solo_ops(case):
     return out
 
 
-_BATCH_FAIL = {}
-_ENUM = {}
-
-
-def _batch_worker(args):
-    base, scheds = args
-    bad = []
-    for st, sw in scheds:
-        c = dict(base, start=st, switches=sw)
-        o = sched.run_arrangement(c)
-        f = sched.arrangement_failure(c, o)
-        if f:
-            bad.append([st, sw, f])
-            if len(bad) >= 3:
-                break
-    return len(scheds), bad
 
 
 def _run_batch(case):
-    import multiprocessing
     calls = RACE_SCENARIOS[case['race']] if 'race' in case else SCENARIOS[case['scenario']]
-    base = _arr(calls, abs=True, reuse=True)
-    steps = sched.run_arrangement(dict(base, reuse=False))['steps']
-    # (if the code changed the number of line steps since the case was made, the schedules are
-    # enumerated for the steps as they are now)
-    ek = (tuple(steps), case['preempt'])
-    if ek not in _ENUM:
-        _ENUM.clear()
-        _ENUM[ek] = sched.enumerate_schedules(steps, case['preempt'])
-    allsch = _ENUM[ek]
-    part = allsch[case.get('lo', 0):case.get('hi')]
-    nproc = max(1, min(12, (os.cpu_count() or 2) - 2))
-    chunk = max(1, (len(part) + nproc * 4 - 1) // (nproc * 4))
-    jobs = [(base, part[i:i + chunk]) for i in range(0, len(part), chunk)]
-    ran, bad = 0, []
-    if jobs:
-        with multiprocessing.get_context('fork').Pool(nproc) as pool:
-            for n, b in pool.imap_unordered(_batch_worker, jobs):
-                ran += n
-                bad.extend(b)
-    bad.sort()
-    if bad:
-        _BATCH_FAIL[json.dumps(case, sort_keys=True)] = dict(base, start=bad[0][0], switches=bad[0][1], reuse=False)
-    return dict(kind='batch', ran=ran, steps=steps, failures=bad[:3])
+    return sched.run_batch(case, _arr(calls))
 
 
 def run_impl(case):
@@ -492,7 +466,7 @@ def classify(case, obs):
 
 def shrink(case):
     if case['kind'] == 'batch':
-        c = _BATCH_FAIL.get(json.dumps(case, sort_keys=True))
+        c = sched.BATCH_FAIL.get(json.dumps(case, sort_keys=True))
         if c:
             yield c
         return
@@ -531,6 +505,9 @@ def _listener_in_handler(case, what, m):
 
 
 PREDICATES = {'listener_registered_in_handler': _listener_in_handler}
+
+# the audit tables are shared with C10 (same anchored code, same arrangement machinery)
+from props.C10 import API_SURFACE, SHARED_STATE  # noqa: E402,F401
 
 MANIFEST = dict(
     text=('Proof (partial — the logic of the isolation, not the interpreter): theorems C08_noninterference, C08_frame and '
